@@ -23,11 +23,14 @@ func (h *Hub) HandleConnectionClosed(connection api.ShipConnectionInterface, han
 
 	// only remove this connection if it is the registered one for the ski!
 	// as we can have double connections but only one can be registered
+	otherConnectionRegistered := false
 	if existingC := h.connectionForSKI(remoteSki); existingC != nil {
 		if existingC.DataHandler() == connection.DataHandler() {
 			h.muxCon.Lock()
 			delete(h.connections, connection.RemoteSKI())
 			h.muxCon.Unlock()
+		} else {
+			otherConnectionRegistered = true
 		}
 
 		// connection close was after a completed handshake, so we can reset the attetmpt counter
@@ -36,7 +39,11 @@ func (h *Hub) HandleConnectionClosed(connection api.ShipConnectionInterface, han
 		}
 	}
 
-	h.hubReader.RemoteSKIDisconnected(connection.RemoteSKI())
+	// the service is still connected if a different (newer) connection is the registered one,
+	// e.g. when the other one of a double connection closes
+	if !otherConnectionRegistered {
+		h.hubReader.RemoteSKIDisconnected(connection.RemoteSKI())
+	}
 
 	// Do not automatically reconnect if handshake failed and not already paired
 	remoteService := h.ServiceForSKI(connection.RemoteSKI())
